@@ -462,24 +462,89 @@ class ProgramModel:
         rel, tree = self.module_tree("core/all_classes_in_order.py")
         env = {}
 
-        def ev(e):
+        funcs = {f.name: f for f in tree.body if isinstance(f, ast.FunctionDef)}
+
+        def ev(e, loc=None, depth=0):
+            """value of a class-list expression: a list of class names (a list of such lists where the code builds one);
+            understands literals, +, list() / tuple(), sum(lists, []), itertools.chain, comprehensions over lists and
+            the small functions of the module itself"""
+            loc = loc or {}
+            if depth > 6:
+                raise AnalysisError(f"{rel}: cannot evaluate {ast.unparse(e)[:80]}")
             if isinstance(e, (ast.List, ast.Tuple)):
                 out = []
                 for x in e.elts:
                     if isinstance(x, ast.Starred):
-                        out += ev(x.value)
+                        out += ev(x.value, loc, depth)
                         continue
-                    if not isinstance(x, ast.Name):
+                    if isinstance(x, ast.Name) and x.id not in loc and x.id not in env:
+                        out.append(x.id)
+                    elif isinstance(x, (ast.Name, ast.List, ast.Tuple, ast.Call, ast.BinOp, ast.ListComp)):
+                        out.append(ev(x, loc, depth))
+                    else:
                         raise AnalysisError(f"{rel}: non-name element {ast.unparse(x)}")
-                    out.append(x.id)
                 return out
+            if isinstance(e, ast.Name) and e.id in loc:
+                return loc[e.id]
             if isinstance(e, ast.Name) and e.id in env:
                 return env[e.id]
+            if isinstance(e, ast.Name):
+                return e.id         # a class
             if isinstance(e, ast.Call) and isinstance(e.func, ast.Name) and e.func.id in ("list", "tuple") \
                     and len(e.args) == 1 and not e.keywords:
-                return ev(e.args[0])
+                return list(ev(e.args[0], loc, depth))
             if isinstance(e, ast.BinOp) and isinstance(e.op, ast.Add):
-                return ev(e.left) + ev(e.right)
+                return ev(e.left, loc, depth) + ev(e.right, loc, depth)
+            if isinstance(e, ast.Call) and isinstance(e.func, ast.Name) and e.func.id == "sum" and e.args:
+                start = ev(e.args[1], loc, depth) if len(e.args) > 1 else next(
+                    (ev(k.value, loc, depth) for k in e.keywords if k.arg == "start"), [])
+                out = list(start)
+                for part in ev(e.args[0], loc, depth):
+                    out += part
+                return out
+            if isinstance(e, ast.Call) and ast.unparse(e.func) in ("chain", "itertools.chain") and not e.keywords:
+                out = []
+                for a in e.args:
+                    parts = ev(a.value, loc, depth) if isinstance(a, ast.Starred) else [ev(a, loc, depth)]
+                    for part in parts:
+                        out += part
+                return out
+            if isinstance(e, ast.Call) and ast.unparse(e.func) in ("chain.from_iterable", "itertools.chain.from_iterable") \
+                    and len(e.args) == 1:
+                out = []
+                for part in ev(e.args[0], loc, depth):
+                    out += part
+                return out
+            if isinstance(e, (ast.ListComp, ast.GeneratorExp)) and all(
+                    isinstance(g.target, ast.Name) and not g.ifs for g in e.generators):
+                out = []
+
+                def loop(i, l2):
+                    if i == len(e.generators):
+                        out.append(ev(e.elt, l2, depth))
+                        return
+                    for item in ev(e.generators[i].iter, l2, depth):
+                        loop(i + 1, dict(l2, **{e.generators[i].target.id: item}))
+                loop(0, dict(loc))
+                return out
+            if isinstance(e, ast.Call) and isinstance(e.func, ast.Name) and e.func.id in funcs and not e.keywords:
+                f = funcs[e.func.id]
+                body = [b for b in f.body if not (isinstance(b, ast.Expr) and isinstance(b.value, ast.Constant))]
+                if len(body) == 1 and isinstance(body[0], ast.Return) and body[0].value is not None \
+                        and not f.args.kwonlyargs and not f.args.kwarg:
+                    args = []
+                    for a in e.args:
+                        if isinstance(a, ast.Starred):
+                            args += ev(a.value, loc, depth)
+                        else:
+                            args.append(ev(a, loc, depth))
+                    ps = [a.arg for a in f.args.args]
+                    l2 = dict(zip(ps, args))
+                    if f.args.vararg is not None:
+                        l2[f.args.vararg.arg] = args[len(ps):]
+                    elif len(args) != len(ps):
+                        raise AnalysisError(f"{rel}: cannot evaluate {ast.unparse(e)[:80]}")
+                    return ev(body[0].value, l2, depth + 1)
             raise AnalysisError(f"{rel}: cannot evaluate {ast.unparse(e)[:80]}")
         for n in tree.body:
             if isinstance(n, ast.Assign) and len(n.targets) == 1 and isinstance(n.targets[0], ast.Name):
